@@ -29,23 +29,31 @@ using namespace ctpg::buffers;
 struct Sched {
     bool on = false;
     std::mutex m; std::condition_variable cv;
-    int turn = 0; bool alive[2] = {false, false};
+    int n = 2; int turn = 0; bool alive[4] = {false, false, false, false};
     std::vector<int> choices, taken, alts; int preemptions = 0, bound = 0; bool diverged = false;
     static thread_local int me;
+    int choose(int nalt) {   // replay the prefix, then default 0; record what was possible (caller holds the lock)
+        size_t k = taken.size(); int c = k < choices.size() ? choices[k] : 0;
+        if (c >= nalt) { diverged = true; c = 0; }
+        taken.push_back(c); alts.push_back(nalt); return c;
+    }
+    std::vector<int> others() const { std::vector<int> o; for (int t = 0; t < n; ++t) if (t != me && alive[t]) o.push_back(t); return o; }
     void point() {
         if (!on) return;
         std::unique_lock<std::mutex> lk(m);
-        int other = 1 - me;
-        if (!alive[other]) return;
-        int nalt = preemptions < bound ? 2 : 1;
-        size_t k = taken.size();
-        int c = k < choices.size() ? choices[k] : 0;
-        if (c >= nalt) { diverged = true; c = 0; }
-        taken.push_back(c); alts.push_back(nalt);
-        if (c == 1) { ++preemptions; turn = other; cv.notify_all(); cv.wait(lk, [&] { return turn == me; }); }
+        std::vector<int> o = others();
+        if (o.empty()) return;
+        int c = choose(preemptions < bound ? 1 + (int)o.size() : 1);
+        if (c >= 1) { ++preemptions; turn = o[c - 1]; cv.notify_all(); cv.wait(lk, [&] { return turn == me; }); }
     }
+    void pick_first() { std::unique_lock<std::mutex> lk(m); turn = choose(n); }   // which thread runs first is a choice too
     void start(int id) { me = id; if (!on) return; std::unique_lock<std::mutex> lk(m); cv.wait(lk, [&] { return turn == me; }); }
-    void finish() { if (!on) return; std::unique_lock<std::mutex> lk(m); alive[me] = false; turn = 1 - me; cv.notify_all(); }
+    void finish() {
+        if (!on) return;
+        std::unique_lock<std::mutex> lk(m); alive[me] = false;
+        std::vector<int> o = others();
+        if (!o.empty()) { turn = o[choose((int)o.size())]; cv.notify_all(); }   // who continues after a thread ends: free choice, no preemption
+    }
 };
 thread_local int Sched::me = 0;
 static Sched* S = nullptr;
@@ -228,30 +236,31 @@ static int run_hist(int depth) {
 }
 
 // ------------------------------------------------------------------------------------------------ sched
-struct ExecResult { std::vector<int> taken, alts; std::string o0, o1; bool fault = false, diverged = false; };
-static ExecResult run_schedule(const std::vector<Call>& A, size_t c0, size_t c1, const std::vector<int>& prefix, int bound) {
-    int st = 0;
+struct ExecResult { std::vector<int> taken, alts; std::vector<std::string> obs; bool fault = false, diverged = false; };
+static ExecResult run_schedule(const std::vector<Call>& A, const std::vector<size_t>& calls, const std::vector<int>& prefix, int bound) {
+    int st = 0; const int N = (int)calls.size();
     std::string out = in_child([&] {
         H1 = build_protected<P1>(make_p1); H2 = build_protected<P2>(make_p2);
-        Sched sc; sc.on = true; sc.choices = prefix; sc.bound = bound; sc.alive[0] = sc.alive[1] = true; sc.turn = 0; S = &sc;
-        Obs o[2];
-        std::thread t0([&] { sc.start(0); o[0] = A[c0].run(); sc.finish(); });
-        std::thread t1([&] { sc.start(1); o[1] = A[c1].run(); sc.finish(); });
-        t0.join(); t1.join(); S = nullptr;
-        std::printf("T"); for (int x : sc.taken) std::printf(" %d", x); std::printf("\nA"); for (int x : sc.alts) std::printf(" %d", x);
-        std::printf("\nO0 %s\nO1 %s\n%s", json_escape(o[0].text).c_str(), json_escape(o[1].text).c_str(), sc.diverged ? "DIVERGED\n" : "");
+        Sched sc; sc.on = true; sc.n = N; sc.choices = prefix; sc.bound = bound; for (int t = 0; t < N; ++t) sc.alive[t] = true; S = &sc;
+        sc.pick_first();
+        std::vector<Obs> o(N); std::vector<std::thread> th;
+        for (int t = 0; t < N; ++t) th.emplace_back([&, t] { sc.start(t); o[t] = A[calls[t]].run(); sc.finish(); });
+        for (auto& x : th) x.join(); S = nullptr;
+        std::printf("T"); for (int x : sc.taken) std::printf(" %d", x); std::printf("\nA"); for (int x : sc.alts) std::printf(" %d", x); std::printf("\n");
+        for (int t = 0; t < N; ++t) std::printf("O%d %s\n", t, json_escape(o[t].text).c_str());
+        if (sc.diverged) std::printf("DIVERGED\n");
     }, &st);
-    ExecResult r; r.fault = !WIFEXITED(st) || WEXITSTATUS(st) != 0 || out.find("CHILD-FAULT") != std::string::npos; r.diverged = out.find("DIVERGED") != std::string::npos;
+    ExecResult r; r.obs.resize(N); r.fault = !WIFEXITED(st) || WEXITSTATUS(st) != 0 || out.find("CHILD-FAULT") != std::string::npos; r.diverged = out.find("DIVERGED") != std::string::npos;
     std::istringstream in(out); std::string line;
     while (std::getline(in, line)) {
         if (line.rfind("T", 0) == 0 && (line.size() == 1 || line[1] == ' ')) { std::istringstream l(line.substr(1)); int x; while (l >> x) r.taken.push_back(x); }
         else if (line.rfind("A", 0) == 0 && (line.size() == 1 || line[1] == ' ')) { std::istringstream l(line.substr(1)); int x; while (l >> x) r.alts.push_back(x); }
-        else if (line.rfind("O0 ", 0) == 0) r.o0 = line.substr(3); else if (line.rfind("O1 ", 0) == 0) r.o1 = line.substr(3);
+        else if (line.size() > 3 && line[0] == 'O' && line[1] >= '0' && line[1] <= '3' && line[2] == ' ') r.obs[line[1] - '0'] = line.substr(3);
     }
     return r;
 }
 
-static int run_sched(int bound, int shard, int nshards) {
+static int run_sched(int bound, int shard, int nshards, int nthreads) {
     std::vector<Call> A = alphabet();
     // isolated observations
     std::vector<std::string> iso(A.size());
@@ -259,29 +268,29 @@ static int run_sched(int bound, int shard, int nshards) {
     // pairs of calls that share one parser object
     auto idx = [&](const char* prefix) { for (size_t k = 0; k < A.size(); ++k) if (std::string(A[k].name).rfind(prefix, 0) == 0) return k; std::printf("{\"harness_error\": \"no call %s\"}\n", prefix); std::exit(2); };
     size_t acc = idx("p1 accept"), rec = idx("p1 recover"), lexe = idx("p1 lexical"), ctx = idx("p1 context_parse"), frec = idx("p1 failing recovery"), verb = idx("p1 verbose"), diag = idx("p1 write_diag_str"), q1 = idx("p2 accept"), q2 = idx("p2 syntax"), q3 = idx("p2 lexical"), sv1 = idx("p1 string_view default"), sv2 = idx("p1 string_view skip_newline");
-    std::vector<std::pair<size_t, size_t>> pairs = {{acc, rec}, {rec, acc}, {rec, lexe}, {ctx, acc}, {acc, acc}, {frec, rec}, {verb, ctx}, {q1, q2}, {q2, q3}, {diag, rec}, {sv1, sv2}, {sv2, rec}};
+    std::vector<std::vector<size_t>> pairs = {{acc, rec}, {rec, acc}, {rec, lexe}, {ctx, acc}, {acc, acc}, {frec, rec}, {verb, ctx}, {q1, q2}, {q2, q3}, {diag, rec}, {sv1, sv2}, {sv2, rec}};
+    if (nthreads == 3) pairs = {{acc, rec, lexe}, {ctx, acc, verb}, {sv1, sv2, rec}, {q1, q2, q3}, {rec, rec, frec}, {diag, ctx, acc}};
     long execs = 0, failures = 0, points = 0; std::string first; size_t maxpoints = 0; size_t npairs = 0;
     for (size_t pi = 0; pi < pairs.size(); ++pi) {
         if ((int)(pi % (size_t)nshards) != shard) continue;   // shards split the work by pair of calls
         auto pr = pairs[pi]; ++npairs;
         std::vector<int> prefix;
         while (true) {
-            ExecResult r = run_schedule(A, pr.first, pr.second, prefix, bound);
+            ExecResult r = run_schedule(A, pr, prefix, bound);
             ++execs; points += (long)r.taken.size(); maxpoints = std::max(maxpoints, r.taken.size());
-            std::string sched; for (size_t k = 0; k < r.taken.size(); ++k) if (r.taken[k]) sched += std::to_string(k) + " ";
+            std::string sched; for (size_t k = 0; k < r.taken.size(); ++k) if (r.taken[k]) sched += std::to_string(k) + ":" + std::to_string(r.taken[k]) + " ";
             std::string problem;
             if (r.diverged) { std::printf("{\"harness_error\": \"schedule prefix did not replay\"}\n"); return 2; }
             if (r.fault) problem = "a call wrote to the read-only parser object or crashed";
-            else if (r.o0 != iso[pr.first]) problem = std::string("thread 0 (") + A[pr.first].name + ") observed '" + r.o0 + "', in isolation '" + iso[pr.first] + "'";
-            else if (r.o1 != iso[pr.second]) problem = std::string("thread 1 (") + A[pr.second].name + ") observed '" + r.o1 + "', in isolation '" + iso[pr.second] + "'";
-            if (!problem.empty()) { ++failures; if (first.empty()) first = std::string("calls [") + A[pr.first].name + " || " + A[pr.second].name + "] preemptions at points [" + sched + "]: " + problem; }
+            else for (size_t t = 0; t < pr.size() && problem.empty(); ++t) if (r.obs[t] != iso[pr[t]]) problem = "thread " + std::to_string(t) + " (" + A[pr[t]].name + ") observed '" + r.obs[t] + "', in isolation '" + iso[pr[t]] + "'";
+            if (!problem.empty()) { ++failures; if (first.empty()) { std::string names; for (size_t t = 0; t < pr.size(); ++t) names += (t ? " || " : "") + std::string(A[pr[t]].name); first = "calls [" + names + "] non-default choices at points [" + sched + "]: " + problem; } }
             int i = (int)r.taken.size() - 1;
             while (i >= 0 && r.taken[i] + 1 >= r.alts[i]) --i;
             if (i < 0) break;
             prefix.assign(r.taken.begin(), r.taken.begin() + i + 1); prefix[i]++;
         }
     }
-    std::printf("{\"cases\": %ld, \"checks\": %ld, \"failures\": %ld, \"schedules\": %ld, \"scheduling_points\": %ld, \"max_points_per_execution\": %zu, \"pairs\": %zu, \"preemption_bound\": %d, \"first_failure\": \"%s\"}\n", execs, execs * 2, failures, execs, points, maxpoints, npairs, bound, json_escape(first).c_str());
+    std::printf("{\"cases\": %ld, \"checks\": %ld, \"failures\": %ld, \"schedules\": %ld, \"scheduling_points\": %ld, \"max_points_per_execution\": %zu, \"pairs\": %zu, \"preemption_bound\": %d, \"first_failure\": \"%s\"}\n", execs, execs * nthreads, failures, execs, points, maxpoints, npairs, bound, json_escape(first).c_str());
     return failures ? 1 : 0;
 }
 
@@ -304,7 +313,7 @@ static int run_free(int rounds) {
 int main(int argc, char** argv) {
     std::string mode = argc > 1 ? argv[1] : "hist";
     if (mode == "hist") return run_hist(argc > 2 ? std::atoi(argv[2]) : 2);
-    if (mode == "sched") { int b = argc > 2 ? std::atoi(argv[2]) : 1; int k = 0, n = 1; if (argc > 3) { k = std::atoi(argv[3]); n = std::atoi(std::strchr(argv[3], '/') + 1); } return run_sched(b, k, n); }
+    if (mode == "sched") { int b = argc > 2 ? std::atoi(argv[2]) : 1; int k = 0, n = 1; if (argc > 3) { k = std::atoi(argv[3]); n = std::atoi(std::strchr(argv[3], '/') + 1); } return run_sched(b, k, n, argc > 4 ? std::atoi(argv[4]) : 2); }
     if (mode == "free") return run_free(argc > 2 ? std::atoi(argv[2]) : 20);
     return 2;
 }
